@@ -199,6 +199,42 @@ example : PredRT (S "_rain_v_1") :=
   ⟨{ tag := S "realpred", attrs := [(S "lemma", S "rain"), (S "pos", S "v"), (S "sense", S "1")], text := none },
    by decide, by decide, by decide⟩
 
+/-! ## DMRS-PENMAN -/
+
+/- FULL STATEMENT (not proved): for every `d` with `ExpressibleP d`,
+     `∃ ts, toTriples o d = .ok ts ∧ fromTriples ts = .ok (viewP o d)`
+   ("DMRS-PENMAN does the same for graphs connected from the top, up to the documented renumbering of node
+   identifiers", with the penman library as the identity on triple lists).  The model functions
+   `toTriples`/`fromTriples` are compared with the real `to_triples`/`from_triples` on every generated
+   graph, and `viewP` is what the direct oracle demands of the public API (up to the order in which the
+   penman library lists the nodes).  Proved below: the properties of the renumbering `renId` that the
+   statement relies on, and one concrete instance. -/
+
+/-- "the documented renumbering": the top node becomes 10000 … -/
+theorem penman_renumber_top (d : DMRS) (t : Int) (ht : d.top = some t) (hmem : t ∈ d.nodes.map (·.id)) :
+    renId d t = FIRST_NODE_ID :=
+  renId_top d t ht hmem
+
+/-- … the kept nodes are numbered consecutively from 10000 in their order … -/
+theorem penman_renumber_consecutive (d : DMRS) (hnd : ((pOrder d).map (·.id)).Nodup) (i : Nat)
+    (hi : i < (pOrder d).length) : renId d ((pOrder d)[i]).id = FIRST_NODE_ID + (i : Int) :=
+  renId_getElem d hnd i hi
+
+/-- … and the renumbering is a bijection of the kept identifiers onto `10000 … 10000+k-1`. -/
+theorem penman_renumber_bijective (d : DMRS) (a b : Int)
+    (ha : a ∈ (pOrder d).map (·.id)) (hb : b ∈ (pOrder d).map (·.id)) :
+    (renId d a = renId d b → a = b) ∧
+    FIRST_NODE_ID ≤ renId d a ∧ renId d a < FIRST_NODE_ID + ((pOrder d).length : Int) :=
+  ⟨renId_injOn d a b ha hb, renId_range d a ha⟩
+
+/-- "for graphs connected from the top" no node is dropped (and the top itself is always kept) -/
+theorem penman_connected_keeps_all (d : DMRS) (hc : ∀ n ∈ d.nodes, n.id ∈ mainComponent d) :
+    (pOrder d).length = d.nodes.length :=
+  pOrder_length_of_connected d hc
+
+theorem penman_top_kept (d : DMRS) (t : Int) (ht : d.top = some t) : t ∈ mainComponent d :=
+  top_mem_mainComponent d t ht
+
 /-! ## the constructor (`_normalize_top_and_links`) -/
 
 /-- "legacy top link from node 0 normalised to top attribute": every link from node 0 is removed, in
